@@ -83,6 +83,8 @@ Mk(i, sk, pr) ==
             [] pr = "msvc"    -> [base EXCEPT !.deps = "msvc", !.hdrs = <<hsrc>>]
             [] pr = "badrsp"  -> [base EXCEPT !.rsp = TRUE, !.badrspdir = TRUE]
             [] pr = "restatgcc" -> [base EXCEPT !.deps = "gcc", !.hdrs = <<hsrc>>, !.restat = TRUE]
+            \* several outputs and recorded dependencies (the record that counts is the first output's)
+            [] pr = "twogcc"  -> [base EXCEPT !.outs = <<O(i), P(i)>>, !.deps = "gcc", !.hdrs = <<hsrc>>]
             \* header generated by statement 1, with the order-only path the manual prescribes
             [] pr = "gccgen"  -> IF i > 1 /\ "o1" \notin ins
                                  THEN [base EXCEPT !.deps = "gcc", !.hdrs = <<"o1">>, !.oo = Append(sk.oo, "o1")]
@@ -176,7 +178,7 @@ GraphsS(shape, profs, K) ==
       n == Len(sk)
   IN { Graph([i \in 1..n |-> Mk(i, sk[i], IF sk[i].phony THEN "plain" ELSE pa[i])]) : pa \in PickF(K, n, profs) }
 
-BaseProfiles == {"plain", "restat", "gen", "two", "rsp", "depfile", "gcc", "msvc", "gccgen", "restatgcc", "iout"}
+BaseProfiles == {"plain", "restat", "gen", "two", "rsp", "depfile", "gcc", "msvc", "gccgen", "restatgcc", "iout", "twogcc"}
 SmallShapes == {"single", "chain2", "chain3", "fanin", "fanout", "implicit", "oonly", "mixed", "indep", "alias", "aliasoo", "aliasooim", "aliasooex", "aliasoo2", "midoo", "valid", "validrev", "validch"}
 
 \* a command line (or response file) is changed, built, and changed back: the records of the build in between decide
@@ -238,6 +240,14 @@ FamSched(K, CH) ==
   UNION { UNION { {Scn(gr, <<Build(Roots(gr), j, 1)>>) : j \in {1, 2, 3}} : gr \in GraphsS(sh, {"plain", "restat", "gcc", "two"}, K) } :
           sh \in ShapeNames }
 
+\* a declared source that is missing and has no rule: as explicit, implicit and order-only input; on a fresh tree, after a
+\* build (the statement that names it order-only then has nothing to do), and together with a change that makes it run
+MissGraph == Graph(<< St1(1, <<"o1">>, <<"s1">>, <<"s2">>), [St1(2, <<"o2">>, <<"o1">>, <<>>) EXCEPT !.im = <<"s3">>], St1(3, <<"o3">>, <<"o2">>, <<>>) >>)
+FamMissing(K, CH) ==
+  UNION { {Scn(MissGraph, <<[op |-> "del", f |-> f], Build(Roots(MissGraph), j, 1)>>),
+           Scn(MissGraph, <<Build(Roots(MissGraph), j, 1), [op |-> "del", f |-> f], Build(Roots(MissGraph), j, 1), Build(Roots(MissGraph), j, 1)>>),
+           Scn(MissGraph, <<Build(Roots(MissGraph), j, 1), [op |-> "del", f |-> f], [op |-> "edit", f |-> "s1"], Build(Roots(MissGraph), j, 1), Build(<<"o1">>, j, 1)>>)} :
+          f \in {"s1", "s2", "s3"}, j \in {1, 2} }
 FamFailDep(K, CH) ==
   UNION { UNION { {[srcs |-> gr.srcs, pools |-> gr.pools, stmts |-> gr.stmts, hist |-> h, twin |-> "deps"] : h \in HistFailDep(gr, 2)} : gr \in GraphsS(sh, {"plain", "depfile", "gcc", "restat"}, K) } : sh \in {"chain2", "fanin", "fanout", "mixed"} }
 \* failure family (C05)
@@ -245,7 +255,7 @@ FamFail(K, CH) ==
   UNION { UNION { UNION { {Scn(gr, h) : h \in Pick(CH, HistFail(gr, jk[1], jk[2]))} : jk \in {1, 2} \X {1, 2, 0} } :
                   gr \in GraphsS(sh, {"plain", "restat", "gcc"}, K) } :
           sh \in {"chain2", "chain3", "fanin", "fanout", "indep", "mixed", "diamond", "alias", "valid", "oonly", "aliasoo", "aliasoo2", "midoo"} }
-  \cup FamFailDep(K, CH)
+  \cup FamFailDep(K, CH) \cup FamMissing(K, CH)
   \cup
   \* more failures in flight than the budget, with independent work still queued
   UNION { UNION { {Scn(gr, <<BuildF(Roots(gr), jk[1], jk[2], FailRec(S, 1, FALSE))>>) : jk \in {<<2, 1>>, <<3, 1>>, <<3, 2>>, <<4, 2>>}, S \in {X \in SUBSET Cmds(gr) : Cardinality(X) \in {2, 3}}} :
@@ -528,9 +538,15 @@ DynCycGen ==
            \o (IF len = 2 THEN <<St1(4, <<"o4">>, <<"o3">>, <<>>)>> ELSE <<>>)) :
       pr \in BOOLEAN, outs2 \in {<<"o2">>, <<"o2", "p2">>, <<"o2", "p2", "q2">>}, via \in {"o2", "p2", "q2"}, kind \in {"ex", "im", "oo"}, len \in {1, 2} }
 DynCycOK == {gr \in DynCycGen : \E k \in DOMAIN gr.stmts[2].outs : gr.stmts[2].outs[k] \in ToSet(gr.stmts[3].ex \o gr.stmts[3].im \o gr.stmts[3].oo)}
+\* a cycle that is reachable only through the validation of a validation target
+ValCycGraphs ==
+  { Graph(<< [St1(1, <<"o1">>, <<"s1">>, <<>>) EXCEPT !.val = <<"o2">>], [St1(2, <<"o2">>, <<"s1">>, <<>>) EXCEPT !.val = <<"o3">>],
+             St1(3, <<"o3">>, <<"o4">>, <<>>), St1(4, <<"o4">>, <<"o3">>, <<>>) >>),
+    Graph(<< [St1(1, <<"o1">>, <<"s1">>, <<>>) EXCEPT !.val = <<"o2">>], St1(2, <<"o2">>, <<"o5">>, <<>>),
+             St1(3, <<"o3">>, <<"o4">>, <<>>), St1(4, <<"o4">>, <<"o3">>, <<>>), [St1(5, <<"o5">>, <<"s1">>, <<>>) EXCEPT !.val = <<"o3">>] >>) }
 FamCyc(K, CH) ==
   UNION { {Scn(gr, <<Build(t, j, 1), Build(t, j, 1)>>) : j \in {1, 2}, t \in {<<o>> : o \in AllOutsG(gr)} \cup {SetToSeq(AllOutsG(gr))}} :
-          gr \in CycGraphs(K) \cup DynCycGraphs \cup DynCycOK }
+          gr \in CycGraphs(K) \cup DynCycGraphs \cup DynCycOK \cup ValCycGraphs }
 
 (***************************************************************************)
 (* C19 (dry run) and C01 (edits while commands run).                        *)
